@@ -26,8 +26,8 @@ import (
 )
 
 func init() {
-	register("C05", genC05)
-	register("C04", genC05)
+	register("C05", func(c *Ctx) { genC05(c); genC05Core(c) })
+	register("C04", func(c *Ctx) { genC05(c); genC05Core(c) })
 	replayers["c05.format"] = func(c *Ctx, m map[string]any) map[string]any {
 		currentProp = c.Prop
 		doc := unhx(m["doc"].(string))
